@@ -1477,6 +1477,23 @@ impl Simulator {
         Ok(())
     }
 }
+#[cfg(endorpersand_lc3_ensemble_verif)]
+impl Simulator {
+    /// Verification hook: the saved stack pointer (the one currently not in use).
+    pub fn verif_saved_sp(&self) -> Word { self.saved_sp }
+    /// Verification hook: sets the saved stack pointer.
+    pub fn verif_set_saved_sp(&mut self, w: Word) { self.saved_sp = w; }
+    /// Verification hook: sets all 16 bits of the PSR (as `RTI` does).
+    pub fn verif_set_psr_raw(&mut self, psr: u16) { self.psr = PSR(psr); }
+    /// Verification hook: whether the PC has not been incremented by the fetch stage yet.
+    pub fn verif_prefetch(&self) -> bool { self.prefetch }
+    /// Verification hook: the allocated blocks (start, length) of the loaded object files.
+    pub fn verif_alloca(&self) -> Vec<(u16, u16)> { self.alloca.to_vec() }
+    /// Verification hook: sets the allocated blocks.
+    pub fn verif_set_alloca(&mut self, a: Vec<(u16, u16)>) { self.alloca = a.into_boxed_slice(); }
+    /// Verification hook: the internal-register mappings (address, register).
+    pub fn verif_ireg_map(&self) -> Vec<(u16, InternalRegister)> { self.ireg_mmap.iter().map(|(&a, &r)| (a, r)).collect() }
+}
 impl Default for Simulator {
     fn default() -> Self {
         Self::new(Default::default())
